@@ -9,10 +9,10 @@ cd $WT || exit 2
 RUN=$(cat $OUT/demo/run.txt | head -1)
 echo "== demo WITH change: $RUN"
 ( eval "$RUN" ) > /tmp/seed-out/$S.with.log 2>&1; W=$?
-git stash -q
+git diff > /tmp/seed-out/$S.cur.diff; git apply -R /tmp/seed-out/$S.cur.diff
 echo "== demo WITHOUT change"
 ( eval "$RUN" ) > /tmp/seed-out/$S.without.log 2>&1; WO=$?
-git stash pop -q
+git apply /tmp/seed-out/$S.cur.diff
 echo "with=$W without=$WO"
 cd /verif
 for c in "$@"; do
